@@ -1,6 +1,7 @@
 (* C19 — The legacy configuration format round-trips an instance: property theorems. *)
 From Coq Require Import String List Bool ZArith.
-Require Import V.Lib.PyStr V.Lib.JTree V.Dosini.Codec V.Dosini.Generated V.Dosini.Model V.Dosini.Proofs V.Dosini.Tables.
+Require Import V.Lib.PyStr V.Lib.JTree V.Dosini.Codec V.Dosini.Generated V.Dosini.Model V.Dosini.Proofs V.Dosini.Tables
+  V.Dosini.Text V.Dosini.TextProofs V.Dosini.FileProofs.
 Import ListNotations.
 Open Scope string_scope.
 
@@ -85,6 +86,29 @@ Proof.
 Qed.
 Print Assumptions C19_inexpressible_lost.
 
+(* The configparser text layer (Text.v: the file written by add_section/set/write of the FlowConfigParser, and
+   the tables the FlowConfigParser reads from any text).  For EVERY table of sections inside the guard
+     - section names: distinct, not DEFAULT, not empty, on one line;
+     - keys of a section: distinct, not empty, on one line, no blank at either end, no '=' or ':', first character
+       none of '#' ';' '[';
+     - values: every '%' is '%%' or starts a %(name)s (cfg.set validates interpolation syntax), no carriage return,
+       no blank at the end of the text, no blank at either end of any line, no line after the first starts with
+       '#' or ';' (empty lines, '=' ':' '[' '#' inside a line, a first line starting with '#' are all allowed);
+   the writer succeeds and the reader, run on the written text, returns no defaults and exactly the table: same
+   sections in the same order, same keys (case kept) in the same order, same multi-line values. *)
+Theorem C19_text_roundtrip :
+  forall t, table_ok t = true -> exists txt, write_table t = Some txt /\ read_text txt = Some ([], t).
+Proof. exact text_roundtrip. Qed.
+Print Assumptions C19_text_roundtrip.
+
+(* what the reader sees of a written file is its lines: for any table whose names, keys and values respect the
+   line discipline, the lines of the written text are, section by section, the header, for every entry the first
+   line `key = first` and one tab-indented line per further line of the value, and an empty line *)
+Theorem C19_text_lines :
+  forall t, sections_ok t = true -> lines (cat (map section_text t)) = flat_map section_lines t.
+Proof. exact lines_table. Qed.
+Print Assumptions C19_text_lines.
+
 (* non-vacuity: a component of every value kind, a reference held by an int, a float and a bool option,
    and two variables; it satisfies the hypotheses of C19_component and round-trips by computation *)
 Definition example_comp : comp :=
@@ -99,10 +123,36 @@ Definition example_comp : comp :=
           ("executors.post.lsf-dm-out.payload", VStr "all")]
          [("george", "of the jungle"); ("n", "3")].
 
+(* The two layers composed, for one component of a stage file (measured tables): when the section written for
+   the component (its variables, then its rendered options) is inside the guard of the text layer, writing the
+   file, reading the text and parsing the section gives the component back. *)
+Theorem C19_component_through_file :
+  forall name c i,
+    wf_comp dump_table parse_table known_keys c = true ->
+    forallb (fun o => expressible (fst o)) (opts c) = true ->
+    file_section c = Some i -> table_ok [(name, i)] = true ->
+    via_file name c = Some c.
+Proof. exact via_file_identity. Qed.
+Print Assumptions C19_component_through_file.
+
+(* a table inside the guard of C19_text_roundtrip: a [META] section and two components; a value of five lines
+   (an empty one, lines that look like an entry, a section header and an inline comment), a first line that
+   starts with '#', keys in mixed case, %(name)s references and an escaped '%%' *)
+Definition example_table : table :=
+  [("META", [("n", "3"); ("Wall", "30.0")]);
+   ("Gen", [("executable", "bin/run.sh");
+            ("arguments", String.concat NL ["-n %(n)s  A:ref"; ""; "k = v"; "[x] # no comment"; "100%% : done"]);
+            ("Mixed_Case", "#first"); ("job-type", "lsf")]);
+   ("a]b", [])].
+
 Example C19_example :
   wf_comp dump_table parse_table known_keys example_comp = true /\
   forallb (fun o => expressible (fst o)) (opts example_comp) = true /\
   roundtrip_c example_comp = Some example_comp /\
   roundtrip_c (mkComp [("workflowAttributes.repeatInterval", VFlt "2.5")] []) =
-    Some (mkComp [("workflowAttributes.repeatInterval", VFlt "2.5"); ("workflowAttributes.isRepeat", VBool true)] []).
+    Some (mkComp [("workflowAttributes.repeatInterval", VFlt "2.5"); ("workflowAttributes.isRepeat", VBool true)] []) /\
+  table_ok example_table = true /\
+  match write_table example_table with Some txt => read_text txt | None => None end = Some ([], example_table) /\
+  match file_section example_comp with Some i => table_ok [("Gen", i)] | None => false end = true /\
+  via_file "Gen" example_comp = Some example_comp.
 Proof. vm_compute. repeat split; reflexivity. Qed.
